@@ -118,7 +118,7 @@ MUTANTS += [
  ('C07', 'mapping-pack-removes-last-le-stop', 'MappingStorage.py', "                tids_to_remove.pop()    # Keep the last, if any\n", "                pass\n"),
  ('C07', 'mapping-gc-regress', 'MappingStorage.py', "                if tid_data.maxKey() > stop:\n                    to_copy.add(oid)", "                pass"),
  ('C07', 'referencesf-skips-bare-oid', 'serialize.py', "        elif isinstance(reference, (bytes, str)):\n            oid = reference\n        else:", "        elif isinstance(reference, (str,)):\n            oid = reference\n        else:"),
- ('C07', 'written-after-fix-regress', FSP, "                    if cur is not None:\n                        self.reachable[dh.oid] = cur\n                        extra_roots.append(cur)", "                    pass"),
+ ('C07', 'written-after-fix-regress', FSP, "                    if cur is not None:\n                        self.reachable[dh.oid] = cur\n                        garbage_roots.append(cur)", "                    pass"),
  ('C07', 'copyrest-loses-tindex', FSP, "        self.index.update(self.tindex)\n        self.tindex.clear()\n        self._commit_lock.acquire()", "        self.tindex.clear()\n        self._commit_lock.acquire()"),
 ]
 CONN = 'Connection.py'
@@ -144,7 +144,12 @@ MUTANTS += [
  ('C13', 'f3-regress', FS, "            self._nextpos = 0\n        # Blob files are put in place by storeBlob(), i.e. before the vote.\n        self._blob_tpc_abort()", "            self._nextpos = 0\n            self._blob_tpc_abort()"),
  ('C13', 'undo-no-blob-copy', FS, "                        if self.is_blob_record(up):", "                        if False and self.is_blob_record(up):"),
  ('C13', 'pack-no-removed-lines', 'FileStorage/fspack.py', "                            if h.oid not in self.gc.reachable:\n                                self.blob_removed.write(\n                                    binascii.hexlify(h.oid) + b'\\n')\n                            else:\n                                self.blob_removed.write(\n                                    binascii.hexlify(h.oid + h.tid) + b'\\n')", "                            pass"),
- ('C13', 'blobstorage-abort-no-cleanup', BLOB, "        self.__storage.tpc_abort(*arg, **kw)\n        self._blob_tpc_abort()", "        self.__storage.tpc_abort(*arg, **kw)"),
+ ('C13', 'blobstorage-abort-no-cleanup', BLOB, "        if current is None or current is transaction:\n            self._blob_tpc_abort()", "        pass"),
+ ('C13', 'blobstorage-foreign-abort-regress', BLOB, "        if current is None or current is transaction:\n            self._blob_tpc_abort()", "        self._blob_tpc_abort()"),
+ ('C07', 'blob-dup-check-ignores-reach-ex', FSP, "                        rposs.extend(self.gc.reach_ex.get(h.oid, ()))\n", ""),
+ ('C08', 'gc-garbage-roots-strict-regress', FSP, "            self.findReachableAtPacktime(refs, missing_ok=True)", "            self.findReachableAtPacktime(refs)"),
+ ('C09', 'time-travel-uses-index-regress', FS, "        r = None if time_travel else self._restore_index()", "        r = self._restore_index()"),
+ ('C11', 'close-precheck-regress', 'Connection.py', "                if connection is not self and not connection._needs_to_join:\n                    raise ConnectionStateError(\n                        \"Cannot close a connection joined to a transaction\")", "                pass"),
  ('C13', 'tmpstore-f20-regress', CONN, "        targetname = self._getCleanFilename(oid, self.index[oid])", "        targetname = self._getCleanFilename(oid, 0)"),
  ('C13', 'blob-invalidate-keeps-uncommitted', BLOB, "        if (self._p_blob_uncommitted):\n            os.remove(self._p_blob_uncommitted)\n\n        super()._p_invalidate()", "        super()._p_invalidate()"),
  ('C13', 'consume-copies-without-dirtying', BLOB, "            # We changed the blob state and have to make sure we join the\n            # transaction.\n            self._p_changed = True", "            pass"),
